@@ -305,6 +305,11 @@ def write_evidence(mod, run, status):
         fcs.append({'function': c.qname, 'contract': c.name, 'config': cfgname, 'file': (d.get('_file') or '').replace(frontend.REPO + '/', ''), 'line': d.get('_line'),
                     'paths': len(res.get('paths', [])), 'obligations': res.get('n_obligations'), 'symex_s': res.get('symex_s'),
                     'requires': [nm for (nm, _) in res.get('requires', [])], 'safety_kinds': sorted(c.safety)})
+    callee = {}
+    for (cfgname, c, res, eng) in run.contracts:
+        for u in c.use:
+            kind = 'assumed contract (trusted here; see where it is proved in the explanation)' if u.assumed else ('havoc-all: the callee may write anything reachable and return anything (no assumption about it)' if (u.frame and not u.post and not u.assumed) else 'contract')
+            callee[u.name] = {'callee': u.qname, 'used_by': c.name, 'kind': kind}
     n = len(obs); d = sum(1 for ob in obs if ob.status == 'unsat')
     agg = {}
     for ob in obs:
@@ -320,6 +325,7 @@ def write_evidence(mod, run, status):
             'trusted_base': TRUSTED_COMMON + list(getattr(mod, 'TRUSTED', [])) + sorted('library model: ' + m for m in run.models_used),
             'functions_under_contract': fcs,
             'functions_executed_symbolically': sorted(run.functions),
+            'callee_contracts_used_at_call_sites': sorted(callee.values(), key=lambda x: x['callee']),
             'obligation_names': agg,
             'by_backend': by_backend,
             'solver_calls': len(P.records) if P else 0,
